@@ -4,6 +4,7 @@ import (
 	"fmt"
 	"go/types"
 	"math/big"
+	"sort"
 	"strings"
 
 	"golang.org/x/tools/go/ssa"
@@ -36,8 +37,7 @@ func (e *Encoder) call(in *ssa.Call, st *State, pc string) {
 
 // nameValue registers v under base<k> (k = ordinal of that base name in encoding order).
 func (e *Encoder) nameValue(base string, v Val, pc string) {
-	k := e.counts["$name "+base]
-	e.counts["$name "+base]++
+	k := e.ordinal("$name " + base)
 	n := fmt.Sprintf("%s%d", base, k)
 	if e.reachedPC == nil {
 		e.reachedPC = map[string]string{}
@@ -150,9 +150,41 @@ func emptyBody(fn *ssa.Function) bool {
 
 func (e *Encoder) siteName(kind, what string) string {
 	key := kind + " " + what
+	return fmt.Sprintf("%s#%d", key, e.ordinal("site "+key))
+}
+
+// ordinal numbers the occurrences of a site / named value in SOURCE order (by position), using the
+// instruction lists recorded by the first encoding pass; in the first pass (no record yet) it counts in
+// encounter order.
+func (e *Encoder) ordinal(key string) int {
+	e.ordLog[key] = append(e.ordLog[key], e.curInstr)
+	if lst, ok := e.ordSeed[key]; ok {
+		for i, in := range lst {
+			if in == e.curInstr {
+				return i
+			}
+		}
+	}
 	k := e.siteCounts[key]
 	e.siteCounts[key]++
-	return fmt.Sprintf("%s#%d", key, k)
+	return k
+}
+
+// sortedOrdLog returns the recorded instruction lists sorted by source position.
+func (e *Encoder) sortedOrdLog() map[string][]ssa.Instruction {
+	out := map[string][]ssa.Instruction{}
+	for k, lst := range e.ordLog {
+		cp := append([]ssa.Instruction(nil), lst...)
+		sort.SliceStable(cp, func(i, j int) bool {
+			pi, pj := cp[i].Pos(), cp[j].Pos()
+			if !pi.IsValid() || !pj.IsValid() {
+				return false
+			}
+			return pi < pj
+		})
+		out[k] = cp
+	}
+	return out
 }
 
 // applyContract: modular call. Asserts requires, havocs modifies, assumes ensures.
